@@ -506,17 +506,6 @@ func (x *Exec) havocKey(st *State, prefix string) {
 			st.heap[k] = c.Fresh("Hh", srt)
 		}
 	}
-	// keys not yet known: they will be materialised from the epoch default, which would
-	// alias the pre-call value; bump a per-state prefix generation instead.
-	if st.gen == nil {
-		st.gen = map[string]int{}
-	} else {
-		ng := make(map[string]int, len(st.gen)+1)
-		for k, v := range st.gen {
-			ng[k] = v
-		}
-		st.gen = ng
-	}
-	x.epochCtr++
-	st.gen[prefix] = x.epochCtr
+	// keys not yet known must not alias their pre-havoc value
+	x.bumpPrefix(st, prefix)
 }
